@@ -13,11 +13,12 @@ CONSTANTS
   UseFollower = TRUE
   UseBounded = TRUE
   C0 = "c1"
+  UseGrpc = FALSE
   UseRace = FALSE
   MaxElect = 0
   StrandedKnown = TRUE
   UseBad = TRUE
-INVARIANTS TypeOK MC_OneActive ActiveRegistered RegOK
+INVARIANTS TypeOK MC_OneActive C13_StreamEnded ActiveRegistered RegOK
 PROPERTIES StepsOK
 VIEW MCView
 CHECK_DEADLOCK FALSE
